@@ -4,6 +4,9 @@
    subject:
      {op: "table", A, sp, refs: [{id, seq, mask}], nb, oc, out: [[kmer, ref, pos], ..]}
          a table built by from_sequences; `out` is what the real table holds
+         (reference ids, the ids of other tables and the positions given to
+         match_kmer_selection are uint32 labels ["u32", hi, lo] - KmerIndex!Dom_Label - in the
+         calls and in the reported rows)
      {op: "sequence", A, s}            a sequence for the selectors
    later events are single calls with their logged outcome and observation.  Every event is
    judged on its own (queries against the logged table content), disagreements are printed as
@@ -18,8 +21,16 @@ tvars == <<tid, l, S>>
 NoDupSeq(s) == Cardinality(ToSet(s)) = Len(s)
 RR(oc, out) == [oc |-> oc, out |-> out]
 
+\* the labels of a call are uint32 values (a driver that logs anything else is rejected)
+LabelsOk(e) ==
+  CASE e.op = "table"       -> \A r \in DOMAIN e.refs : Dom_Label(e.refs[r].id)
+    [] e.op = "match_table" -> \A r \in DOMAIN e.other : Dom_Label(e.other[r].id)
+    [] e.op = "match_sel"   -> \A i \in DOMAIN e.pos : Dom_Label(e.pos[i])
+    [] OTHER                -> TRUE
+
 Expected(e) ==
-  CASE e.op = "table"       -> Op_FromSequences(e.refs, e.sp)
+  CASE ~LabelsOk(e)         -> RR("OutOfDomain", {})
+    [] e.op = "table"       -> Op_FromSequences(e.refs, e.sp)
     [] e.op = "match"       -> Op_Match(S.T, e.q, e.mask, e.rule, S.sp)
     [] e.op = "count"       -> Op_Count(S.T, e.kmers)
     [] e.op = "lookup"      -> Op_Lookup(S.T, e.kmer)
